@@ -43,9 +43,38 @@ type world struct {
 	mu     sync.Mutex
 	routes map[string]resp // "host/path"
 	hits   map[string]int
+
+	// histories (history.go): transient faults of the current run by route,
+	// conditional requests (If-None-Match / If-Modified-Since answered with
+	// 304), and a callback that runs inside a request (a deterministic
+	// interleaving point: "while the factory is waiting for this response").
+	faults      map[string]fault
+	conditional bool
+	during      func(method, key string)
+	faulted     map[string]int // route -> times a fault was served
 }
 
-func newWorld() *world { return &world{routes: map[string]resp{}, hits: map[string]int{}} }
+// fault is a transient failure of one route: an HTTP status, a transport
+// error, or a body that breaks off with a read error.
+type fault struct {
+	status int  // != 0: answer with this status
+	net    bool // the request fails (connection reset)
+	body   bool // the body ends with an error after half of its bytes
+}
+
+func (f fault) String() string {
+	switch {
+	case f.net:
+		return "connection-reset"
+	case f.body:
+		return "body-breaks-off"
+	}
+	return fmt.Sprintf("status-%d", f.status)
+}
+
+func newWorld() *world {
+	return &world{routes: map[string]resp{}, hits: map[string]int{}, faults: map[string]fault{}, faulted: map[string]int{}}
+}
 
 func (w *world) put(key string, status int, ctype string, body []byte, extra ...string) {
 	h := map[string]string{}
@@ -60,14 +89,57 @@ func (w *world) put(key string, status int, ctype string, body []byte, extra ...
 	w.mu.Unlock()
 }
 
+func (w *world) del(key string) {
+	w.mu.Lock()
+	delete(w.routes, key)
+	w.mu.Unlock()
+}
+
+// brokenBody yields its bytes and then a read error.
+type brokenBody struct{ r *bytes.Reader }
+
+func (b *brokenBody) Read(p []byte) (int, error) {
+	n, err := b.r.Read(p)
+	if err == io.EOF {
+		return n, fmt.Errorf("world: connection reset while reading the body")
+	}
+	return n, err
+}
+func (b *brokenBody) Close() error { return nil }
+
 func (w *world) RoundTrip(req *http.Request) (*http.Response, error) {
 	key := req.URL.Host + req.URL.Path
 	w.mu.Lock()
 	w.hits[key]++
 	r, ok := w.routes[key]
+	flt, hasFault := w.faults[key]
+	if hasFault {
+		w.faulted[key]++
+	}
+	during, cond := w.during, w.conditional
 	w.mu.Unlock()
+	if during != nil {
+		during(req.Method, key)
+	}
 	if !ok {
 		r = resp{status: 404}
+	}
+	if hasFault && flt.net {
+		return nil, fmt.Errorf("world: connection reset by peer (%s)", key)
+	}
+	if hasFault && (flt.status != 0 || (flt.body && req.Method == http.MethodHead)) {
+		st := flt.status
+		if st == 0 {
+			st = 503
+		}
+		r = resp{status: st, body: []byte("transient fault")}
+	}
+	if cond && ok && r.status == 200 && !hasFault {
+		if inm := req.Header.Get("If-None-Match"); inm != "" && inm == r.header["etag"] {
+			r = resp{status: 304, header: r.header}
+		} else if ims := req.Header.Get("If-Modified-Since"); ims != "" && ims == r.header["last-modified"] {
+			r = resp{status: 304, header: r.header}
+		}
 	}
 	h := http.Header{}
 	for k, v := range r.header {
@@ -77,11 +149,15 @@ func (w *world) RoundTrip(req *http.Request) (*http.Response, error) {
 	if req.Method == http.MethodHead {
 		body = nil
 	}
+	var rc io.ReadCloser = io.NopCloser(bytes.NewReader(body))
+	if hasFault && flt.body && req.Method != http.MethodHead {
+		rc = &brokenBody{bytes.NewReader(body[:len(body)/2])}
+	}
 	return &http.Response{
 		StatusCode:    r.status,
 		Status:        fmt.Sprintf("%d %s", r.status, http.StatusText(r.status)),
 		Header:        h,
-		Body:          io.NopCloser(bytes.NewReader(body)),
+		Body:          rc,
 		ContentLength: int64(len(body)),
 		Request:       req,
 		Proto:         "HTTP/1.1", ProtoMajor: 1, ProtoMinor: 1,
